@@ -58,11 +58,11 @@ var propertyCanaries = map[string][]string{
 	"C06": {"OKFLOW.condpath", "FACT.condafter", "FACTKIND.pair", "OKFLOW.use", "OKFLOW.cond", "OKFLOW.report", "FACT.normorder", "FACT.state", "FACT.condunit", "NILRECV"},
 	"C07": {"ARGS.arms", "ARGS.strict", "ARGS.fullrow", "WORKSIZE.querylen", "ARGS.order", "ARGS.lencheck", "ARGS.query", "MAT.order", "ASM.window", "ASM.tail", "STRIDE.len"},
 	"C08": {"CONSTFOLD.underflow", "ASM.lost", "PARAMUSE.read", "ASM.window", "ASM.tail", "ASM.units", "STRIDE.extent", "SIB.guards"},
-	"C09": {"GOPROTO.semcap", "GOPROTO.scratch", "GLOBAL.write", "GOPROTO.capture", "GOPROTO.lockpair", "GOPROTO.sibling", "POOL.uaf"},
+	"C09": {"GOPROTO.accumzero", "GOPROTO.semcap", "GOPROTO.scratch", "GLOBAL.write", "GOPROTO.capture", "GOPROTO.lockpair", "GOPROTO.sibling", "POOL.uaf"},
 	"C12": {"GRAPHINV.prune", "TWIN.sibguard", "GRAPHINV.panicorder", "GRAPHINV.absent", "GRAPHINV.iterreset", "GRAPHINV.converse", "GRAPHINV.uid", "GRAPHINV.iter", "TWIN.sibstate"},
 	"C16": {"DECODE.order", "DECODE.errdrop", "DECODE.mul", "DECODE.selfcmp", "DECODE.clone", "DECODE.fields"},
 	"C17": {"GLOBAL.write", "RESET.fields", "WINDOW.pointwise"},
-	"C18": {"CONST.stencil", "GOPROTO.sibling"},
+	"C18": {"GOPROTO.accumzero", "CONST.stencil", "GOPROTO.sibling"},
 	"C19": {"OPT.limits", "GOPROTO.scratch", "GOPROTO.run", "INIT.state"},
 }
 
@@ -105,6 +105,7 @@ func init() {
 		{"GRAPHINV.prune", "graph/multi/directed.go", "\tdelete(g.from[fid][tid], id)\n\tif len(g.from[fid][tid]) == 0 {\n\t\tdelete(g.from[fid], tid)\n\t}", "\tdelete(g.from[fid][tid], id)\n\tdelete(g.from[fid], tid)", func() *core.Result { return graphinv.Run(def) }},
 		{"TWIN.sibguard", "graph/iterator/lines_map.go", "func (l *Lines) Next() bool {\n\tif l.pos >= l.lines {\n\t\treturn false\n\t}\n", "func (l *Lines) Next() bool {\n", func() *core.Result { return twin.Run(twin.Which{SiblingState: []string{"graph/iterator"}}) }},
 		{"CONSTFOLD.underflow", "lapack/gonum/dlassq.go", "abig += (amed * dsbig) * dsbig", "abig += dsbig * dsbig * amed", func() *core.Result { return constfold.Run(def, core.Pkgs("./lapack/gonum")) }},
+		{"GOPROTO.accumzero", "diff/fd/gradient.go", "\tfor i := range dst {\n\t\tdst[i] = 0\n\t}\n\t// Read in all of the results.", "\t// Read in all of the results.", func() *core.Result { return goproto.Run(def, core.Pkgs("./diff/fd")) }},
 		{"WORKSIZE.min", "lapack/gonum/dgels.go", "wsize := max(1, mn+max(mn, nrhs)*nb)", "wsize := max(1, mn+mn*nb)", wsz},
 		{"WORKSIZE.querylen", "lapack/gonum/dormqr.go", "case lwork < max(1, nw) && lwork != -1:\n\t\tpanic(badLWork)", "case lwork < max(1, nw) && lwork != -1:\n\t\tpanic(badLWork)\n\tcase len(tau) != k:\n\t\tpanic(badLenTau)", wsz},
 		{"WORKSIZE.min", "lapack/gonum/dsyev.go", "lworkopt := max(1, (nb+2)*n)", "lworkopt := max(1, (nb+1)*n)", wsz},
